@@ -5,6 +5,7 @@ package str
 import (
 	"bytes"
 	"fmt"
+	"math"
 	"strconv"
 	"strings"
 	"unicode"
@@ -128,13 +129,21 @@ func join(sep string, inputs eval.Inputs) (string, error) {
 	return buf.String(), errJoin
 }
 
-func repeat(s string, n int) (string, error) {
+func repeat(s string, n int) (result string, err error) {
 	if n < 0 {
 		return "", errs.BadValue{What: "n", Valid: "non-negative number", Actual: vals.ToString(n)}
 	}
-	if len(s)*n < 0 {
-		return "", errs.BadValue{What: "n", Valid: "small enough not to overflow result", Actual: vals.ToString(n)}
+	errTooLarge := errs.BadValue{What: "n", Valid: "small enough not to overflow result", Actual: vals.ToString(n)}
+	if len(s) > 0 && n > math.MaxInt/len(s) {
+		return "", errTooLarge
 	}
+	defer func() {
+		// The length fits in an int but can still exceed what can be
+		// allocated, in which case strings.Repeat panics.
+		if r := recover(); r != nil {
+			result, err = "", errTooLarge
+		}
+	}()
 	return strings.Repeat(s, n), nil
 }
 
